@@ -2,6 +2,7 @@
   C12 — a probe succeeds only on genuine evidence; indirect probing is routed correctly.
 -/
 import FocaModel.Proofs.SendAll
+import FocaModel.Proofs.SwapRemove
 namespace Foca.C12
 open Foca
 
@@ -57,15 +58,7 @@ theorem forwarded_ack_counts_only_from_asked (p : Probe) (src : Id) (n : Nat)
         exact List.getElem_mem hl
       refine ⟨hn'.symm, hmem, trivial, ?_⟩
       unfold swapRemove
-      cases hl : p.indirect.getLast? with
-      | none =>
-        have : p.indirect = [] := by simpa using hl
-        rw [this] at hlt; simp at hlt
-      | some last =>
-        simp only
-        split
-        · simp; omega
-        · simp; omega
+      exact swapRemoveAt_length hlt
 
 /-- Only a round without evidence yields a failed member (and thus a suspicion). -/
 theorem failed_only_without_evidence (p : Probe) (m : Member) (h : p.takeFailed.1 = some m) :
